@@ -58,8 +58,14 @@ def classify_exception(ctx, e, where="workload"):
     import traceback
     from spverif.core.util import raise_site, tb_tail
     tb = traceback.extract_tb(e.__traceback__)
-    inner = tb[-1].filename if tb else ""
     root = os.path.abspath(repo_mod.REPO).rstrip("/") + "/"
+    # the innermost frame that belongs either to the tree under test or to the harness decides (an exception raised inside the
+    # standard library - struct, os.fsencode, codecs - is attributed to whoever called it)
+    inner = ""
+    for fr in reversed(tb):
+        if fr.filename.startswith(root) or fr.filename.startswith(VERIF_ROOT.rstrip("/") + "/"):
+            inner = fr.filename
+            break
     if inner.startswith(root):
         ctx.fail(where, "valid_operation_raised", f"{type(e).__name__}@{raise_site(e)}", None, error=repr(e), traceback=tb_tail(e, 8))
     else:
@@ -135,11 +141,11 @@ def environment_pass(prop, seed, ctx):
     assert statements and `if __debug__` blocks are removed), a local time zone with a 3.5 h offset, another string-hash
     seed, the C locale with UTF-8 mode off.  Results are merged like those of a shard; witnesses carry the environment."""
     tmp = tempfile.mkdtemp(prefix=f"spv-env-{prop}-")
-    label = "python -O, TZ=%s, PYTHONHASHSEED=%s, LC_ALL=C" % (ENVPASS["TZ"], ENVPASS["PYTHONHASHSEED"])
+    label = "python -O, TZ=%s, PYTHONHASHSEED=%s, LC_ALL=C without UTF-8 mode or locale coercion (file-system encoding ASCII)" % (ENVPASS["TZ"], ENVPASS["PYTHONHASHSEED"])
     try:
         out = os.path.join(tmp, "env.json")
         env = dict(os.environ, TZ=ENVPASS["TZ"], PYTHONHASHSEED=ENVPASS["PYTHONHASHSEED"], LC_ALL=ENVPASS["LC_ALL"], PYTHONUTF8=ENVPASS["PYTHONUTF8"],
-                   SPV_ENVPASS=label, SPV_NO_COLD="1", SPV_NO_REACH="1", SPV_QUICK_SCALE="0.34", VERIF_SEED=str(seed + 1_000_003))
+                   PYTHONCOERCECLOCALE="0", SPV_ENVPASS=label, SPV_NO_COLD="1", SPV_NO_REACH="1", SPV_QUICK_SCALE="0.34", VERIF_SEED=str(seed + 1_000_003))
         env.pop("LANG", None)
         try:
             p = subprocess.run([sys.executable, "-X", "dev", "-W", "ignore"] + ENVPASS["flags"] + ["-m", "spverif", prop, "quick", "--shard", "0/1", "--out", out],
@@ -175,7 +181,7 @@ def anchored_files(prop):
 
 def run_in_process(mod, ctx: Ctx):
     st = getattr(mod, "selftest", None)
-    if st is not None:
+    if st is not None and not os.environ.get("SPV_ENVPASS"):       # the oracle self-tests are written with assert statements: they ran in the main pass, `python -O` would skip them
         try:
             st(ctx)
         except Exception as e:  # noqa: BLE001 - an oracle that fails its own self-test decides nothing
